@@ -94,6 +94,11 @@ var ReplaceNumbersInWords = false
 // example, "ORDER BY col ASC" is the same as "ORDER BY col", so "ASC" in the
 // fingerprint is removed.
 func GetFingerprint(q string) string {
+	// A comment may be written wherever white space may, glued to the tokens
+	// around it or inside a value list, but the parser below recognises one
+	// only in some of its states: it sees blanks in place of every comment.
+	orig := q
+	q = blankComments(q)
 	q += " " // need range to run off end of original query
 	prevWord := ""
 	// The fingerprint can be longer than the query: a value list "(1)" becomes
@@ -622,7 +627,7 @@ func GetFingerprint(q string) string {
 			if Debug {
 				fmt.Println("Admin cmd")
 			}
-			return q[0 : len(q)-1] // original query minus the trailing space we added
+			return orig // original query
 		case r == '#':
 			if Debug {
 				fmt.Println("One-line comment begin")
@@ -695,6 +700,43 @@ func GetFingerprint(q string) string {
 
 	// Return the fingerprint.
 	return string(f[0:fi])
+}
+
+// blankComments returns q with every /* comment */ overwritten by blanks. The
+// text keeps its length, so offsets into it are offsets into q. Nothing inside
+// a 'quoted' or "quoted" value is a comment, and /*! ... */ is MySQL-specific
+// code, not a comment. An unterminated comment extends to the end of q.
+func blankComments(q string) string {
+	b := []byte(q)
+	quote := byte(0)   // in a quoted value: its quote character
+	escape := false    // in a quoted value: the previous byte is an unescaped backslash
+	comment := unknown // in a comment: inMLC
+	body := 0          // in a comment: offset of the first byte after the opening /*
+	for i := 0; i < len(q); i++ {
+		c := q[i]
+		switch {
+		case comment == inMLC:
+			b[i] = ' '
+			if c == '/' && i > body && q[i-1] == '*' {
+				comment = unknown
+			}
+		case quote != 0:
+			if escape {
+				escape = false
+			} else if c == '\\' {
+				escape = true
+			} else if c == quote {
+				quote = 0
+			}
+		case c == '\'' || c == '"':
+			quote = c
+		case c == '/' && strings.HasPrefix(q[i+1:], "*") && !strings.HasPrefix(q[i+2:], "!"):
+			b[i] = ' '
+			comment = inMLC
+			body = i + 2
+		}
+	}
+	return string(b)
 }
 
 func isSpace(r rune) bool {
